@@ -1,0 +1,86 @@
+package introspection_test
+
+import (
+	"context"
+	"encoding/json"
+	"testing"
+
+	"github.com/stretchr/testify/assert"
+	"github.com/stretchr/testify/require"
+
+	"github.com/ccbrown/api-fu/graphql"
+	"github.com/ccbrown/api-fu/graphql/schema"
+	"github.com/ccbrown/api-fu/graphql/schema/introspection"
+)
+
+func TestSchemaData_DefaultValues(t *testing.T) {
+	enumType := &schema.EnumType{
+		Name: "Enum",
+		Values: map[string]*schema.EnumValueDefinition{
+			"A": {Value: 1},
+			"B": {Value: 2},
+		},
+	}
+	inputType := &schema.InputObjectType{
+		Name: "Input",
+		Fields: map[string]*schema.InputValueDefinition{
+			"n": {Type: schema.NewNonNullType(schema.IntType), DefaultValue: 7},
+			"e": {Type: enumType},
+		},
+		ResultCoercion: func(v interface{}) (map[string]interface{}, error) {
+			return v.(map[string]interface{}), nil
+		},
+	}
+	s, err := schema.New(&schema.SchemaDefinition{
+		Query: &schema.ObjectType{
+			Name: "Query",
+			Fields: map[string]*schema.FieldDefinition{
+				"f": {
+					Type: schema.IntType,
+					Arguments: map[string]*schema.InputValueDefinition{
+						"required": {Type: schema.NewNonNullType(schema.IntType), DefaultValue: 1},
+						"enum":     {Type: schema.NewNonNullType(enumType), DefaultValue: 2},
+						"input":    {Type: schema.NewNonNullType(inputType), DefaultValue: map[string]interface{}{"n": 7, "e": 1}},
+						"null":     {Type: schema.NewListType(schema.StringType), DefaultValue: schema.Null},
+					},
+				},
+			},
+		},
+	})
+	require.NoError(t, err)
+
+	resp := graphql.Execute(&graphql.Request{
+		Context: context.Background(),
+		Query:   string(introspection.Query),
+		Schema:  s,
+	})
+	require.Empty(t, resp.Errors)
+	buf, err := json.Marshal(resp.Data)
+	require.NoError(t, err)
+
+	var result struct {
+		Schema introspection.SchemaData `json:"__schema"`
+	}
+	require.NoError(t, json.Unmarshal(buf, &result))
+	def, err := result.Schema.GetSchemaDefinition()
+	require.NoError(t, err)
+	rebuilt, err := schema.New(def)
+	require.NoError(t, err)
+
+	args := def.Query.Fields["f"].Arguments
+	assert.Equal(t, 1, args["required"].DefaultValue)
+	assert.Equal(t, "B", args["enum"].DefaultValue)
+	assert.Equal(t, map[string]interface{}{"n": 7, "e": "A"}, args["input"].DefaultValue)
+	assert.True(t, args["null"].DefaultValue == schema.Null)
+
+	for _, query := range []string{
+		`{f}`,
+		`query ($v: Int) {f(required: $v)}`,
+		`{f(input: {})}`,
+	} {
+		_, errs := graphql.ParseAndValidate(query, s, nil)
+		assert.Empty(t, errs, query)
+		_, errs = graphql.ParseAndValidate(query, rebuilt, nil)
+		assert.Empty(t, errs, query)
+	}
+}
